@@ -219,6 +219,10 @@ VARIANTS["C01"] = [
     M("strong-removal-skips-other-members", HG, "                for node in node_neighbors.difference({n}):\n                    self._node[node].remove(e)\n        else:  # weak removal", "        else:  # weak removal", "R-INC", "Hypergraph.remove_node"),
     M("remove_empty-deletes-nonempty-edge", HG, "                if not self._edge[edge] and remove_empty:\n                    del self._edge[edge]\n                    del self._edge_attr[edge]\n\n    def remove_nodes_from", "                if remove_empty:\n                    del self._edge[edge]\n                    del self._edge_attr[edge]\n\n    def remove_nodes_from", "R-INC", "Hypergraph.remove_node"),
     M("add_node_to_edge-one-sided", HG, "        self._edge[edge].add(node)\n        self._node[node].add(edge)\n", "        self._edge[edge].add(node)\n", "R-INC", "add_node_to_edge"),
+    M("add_node_to_edge-one-sided-inplace-operator", HG, "        self._edge[edge].add(node)\n        self._node[node].add(edge)\n", "        self._edge[edge] |= {node}\n", "R-INC", "add_node_to_edge"),
+    M("add_node_to_edge-one-sided-update", HG, "        self._edge[edge].add(node)\n        self._node[node].add(edge)\n", "        self._edge[edge].update({node})\n", "R-INC", "add_node_to_edge"),
+    R("add_node_to_edge-inplace-operators-both-sides", HG, "        self._edge[edge].add(node)\n        self._node[node].add(edge)\n", "        self._edge[edge] |= {node}\n        self._node[node] |= {edge}\n"),
+    R("add_node_to_edge-update-both-sides", HG, "        self._edge[edge].add(node)\n        self._node[node].add(edge)\n", "        self._edge[edge].update({node})\n        self._node[node].update({edge})\n"),
     M("add_node-no-attr-record", HG, "        if node not in self._node:\n            self._node[node] = set()\n            self._node_attr[node] = self._node_attr_dict_factory()\n        self._node_attr[node].update(attr)\n\n    def add_nodes_from", "        if node not in self._node:\n            self._node[node] = set()\n        if attr:\n            self._node_attr[node] = self._node_attr_dict_factory()\n            self._node_attr[node].update(attr)\n\n    def add_nodes_from", "R-ATTR", "Hypergraph.add_node"),
     M("clear_edges-keeps-memberships", HG, "        for node in self.nodes:\n            self._node[node] = set()\n        self._edge.clear()", "        self._edge.clear()", "R-INC", "clear_edges"),
     M("double_edge_swap-forgets-one-membership", HG, "        self._node[n_id1] = temp_memberships1\n        self._node[n_id2] = temp_memberships2\n", "        self._node[n_id1] = temp_memberships1\n", "R-INC", "double_edge_swap"),
